@@ -250,6 +250,15 @@ def generated(quick):
             for ii in ('0', '1'):
                 add('address-constant-arithmetic/' + af.replace(' ', ''), 'int ga[4]; struct { int n, m; } gs; int gf(void);\nlong gv = %s;\nvoid f(void) { static long lv = %s; }\n' % (
                     af.replace('K', kk).replace('I', ii), af.replace('K', kk).replace('I', ii)))
+    # case labels in orders that stress the balancing of the case tree and its fixed-size path array (seeded round 10): sorted both ways,
+    # alternating between the two ends with a final label at the bottom of the chain, and a fixed pseudo-random permutation
+    for n in ((300, 800, 2500) if quick else (300, 800, 2500, 5000, 20000)):
+        asc = list(range(10, 10 + n))
+        zig = [v for pair in zip(range(10, 10 + n // 2), range(100000, 100000 - n // 2, -1)) for v in pair] + [5, 50000, 99999 - n]
+        perm = sorted(asc, key=lambda v: (v * 2654435761) % 1000003)
+        for nm, order in (('ascending', asc), ('descending', asc[::-1]), ('zigzag', zig), ('permuted', perm)):
+            add('case-order-%s/%d' % (nm, n), 'int f(int x) { switch (x) { ' + ' '.join('case %d: return %d;' % (v, v & 127) for v in order) + ' } return 0; }\n')
+        add('case-order-zigzag-long/%d' % n, 'int f(long x) { switch (x) { ' + ' '.join('case %dL: return %d;' % (v * 4294967297, v & 127) for v in zig) + ' } return 0; }\n')
     for n in (31, 32, 33, 64, 100):
         add('designators/%d' % n, 'struct s { ' * 1 + 'int x; };\nint a' + '[2]' * n + ' = { ' + '[0]' * n + ' = 1 };\n')
         add('nested-init-struct/%d' % n, ''.join('struct t%d { ' % i for i in range(n)) + 'int x; ' + ''.join('} m%d; ' % (n - 1 - i) for i in range(n - 1)) + '} v = ' + '{' * n + '1' + '}' * n + ';\n')
